@@ -1,7 +1,7 @@
 """C03 — open circuit breaker shields the inner service."""
 from ..core import graph, Call, peel, leaves, show, N
 from ..util import *
-from .cb_common import CB, CRATE, STATE_ENUM
+from .cb_common import cb_view, CB, CRATE, STATE_ENUM
 
 EXPLANATION = (
     "Decides the shielding discipline on built MIR: (ADMIT) in both circuit-breaker services every call of the "
@@ -24,10 +24,11 @@ TECHNIQUE = "static analysis of built MIR: edge dominance (must-pass-through), n
 def run(facts, tr, rep):
     # service-level rules on the shallow view (free helpers, async helpers and glue methods inlined; the circuit's own
     # methods stay calls and are found by role); clauses about one circuit method use its fully inlined body
+    facts0, tr0 = facts, tr
     facts, tr = facts.shallow, tr.shallow
     _n_ops = check_no_panicking_time_arith(facts, tr, rep, "C03.NO-PANIC-ARITH", facts.crates[CRATE].bodies)
     rep.note("panicking Instant/Duration operators examined in the crate: %d" % _n_ops)
-    cb = CB(facts, tr, rep)
+    cb, facts, tr = cb_view(facts0, tr0, rep)
     rep.floor("C03.inner-call-sites", len(cb.sites), 2)
     for (sb, b, c, adm) in cb.sites:
         g = graph(b)
